@@ -637,7 +637,7 @@ func (P) Generate(g *core.Gen) {
 		g.Case("inv-every-stop-max", t.n() > 2, fmt.Sprintf("C17 t %s %s", t, strings.Join(ops, " ")))
 	}
 	// random trees up to 2000 nodes (thorough: 5000), random tips (re-orgs of the view) and queries
-	for i := 0; i < g.N(700, 12000); i++ {
+	for i := 0; i < g.N(700, 8000); i++ {
 		maxN := int(r.Pick(5, 30, 30, 200, 200, 2000))
 		if g.Thorough() && r.Chance(1, 10) {
 			maxN = 5000
